@@ -729,6 +729,9 @@ def _check_rule(mon, tr, ph, t, ids, tv, pub):
         pred = ph.get("pred")
         if pred is None:
             return
+        # the harness predicted all designs in one batch, the acquisition the active ones: a gpytorch model answers different
+        # batch compositions with values differing in the 7th-8th digit (observed 1e-7 relative, thorough seed 1); stubs exactly
+        rt = 1e-6 if str(tr.case.get("model", "")).startswith("real") else 1e-9
         for i, val in zip(ids, tv):
             if i not in pred:
                 continue
@@ -742,7 +745,7 @@ def _check_rule(mon, tr, ph, t, ids, tv, pub):
                 if costs is not None:
                     want /= float(np.asarray(costs, float)[k])
             mon.count("rule_values_checked")
-            if abs(want - val) > 1e-9 * (1 + abs(want)):
+            if abs(want - val) > rt * (1 + abs(want)):
                 mon.violation("acq:rule-value", f"{v}: {acq} value of design {i} is {val}, recomputed {want}", pub)
 
 
